@@ -35,6 +35,15 @@ EXPLANATION = (
     'the accumulator of version_check_to_range (the range returned after the loop), the lists of version_compare_many (loop or filtering comprehensions), '
     'the (operator, rest) pair of version_compare; Range.intersect is ONE table after inlining its private helpers; ==/!= are read from their decision tables; '
     'ranking-key guards are decided by world enumeration.  A violation always names a construct that does the wrong thing on a path; code the pack cannot read is Undecided. '
+    'Round 7: every table is extracted from ONE normal form (c19_norm.normal_form): private helpers of the class/module inlined with arguments bound by '
+    'signature (effect, value-returning, in if-tests; repeated after normalisation), loops over constant tables (module or local tuple/dict, .items()) unrolled, '
+    'module literals and len() of constants folded, walrus / conditional-expression returns / list-growth spellings / m.groups() / index loops / EAFP lookups desugared; '
+    'the comparison core is found by role (method, Class.m(self,..), staticmethod or module function; operands bound by signature); Range.intersect is judged on the final '
+    'bound and flag value per world. R3 also: the requirements iterable is walked at most once per path (typestate), and blanks before the operator must not select the '
+    'operator (armed finding); R6: no call site uses the 3-tuple of version_compare_many as a truth value (armed finding). '
+    'NOT decided: (a) if-clause narrowing is applied whatever the condition does with the result of version_compare (`not ..`, `.. or true`): the narrowed range is then '
+    'not the set of versions that run the block - in scope of the property, but evaluate_if cannot see it and a rule would have to prescribe a design; '
+    '(b) int() of a digit run longer than the interpreter limit raises ValueError (not an order property). '
     'Does NOT decide the order axioms on concrete version strings (tokenisation is run-time); a local whose definition may have been '
     'invalidated before its use, and range expressions that are not chains of Range(..)/.intersect(..), end Undecided.')
 TECHNIQUE = ('decision tables by path enumeration over canonical atoms + world enumeration, after tail duplication and copy propagation of '
